@@ -52,3 +52,300 @@ mod magnitude {
         kani::cover!(m < 0);
     }
 }
+
+#[cfg(kani)]
+mod parser {
+    use fpdec::ParseDecimalError;
+
+    const MAXC: u128 = i128::MAX as u128;
+    const P10: [u128; 39] = {
+        let mut t = [1u128; 39];
+        let mut i = 1;
+        while i < 39 {
+            t[i] = t[i - 1] * 10;
+            i += 1;
+        }
+        t
+    };
+
+    /// Reference recogniser / evaluator for the literal grammar of property C06, written independently of the parser:
+    /// `[+|-](digits[.digits*] | .digits)[(e|E)[+|-]digits]`; returns Some((coefficient, fractional digits)) iff the literal must be accepted.
+    /// Only used on inputs of at most 16 bytes (mantissa < 10^16), so u128 arithmetic below cannot overflow except where checked.
+    pub fn oracle(b: &[u8]) -> Option<(i128, u8)> {
+        let n = b.len();
+        let mut i = 0usize;
+        let mut neg = false;
+        if i < n && (b[i] == b'+' || b[i] == b'-') {
+            neg = b[i] == b'-';
+            i += 1;
+        }
+        let mut mant: u128 = 0;
+        let mut ni = 0usize;
+        let mut nf = 0usize;
+        while i < n && b[i].wrapping_sub(b'0') < 10 {
+            mant = mant * 10 + (b[i] - b'0') as u128;
+            ni += 1;
+            i += 1;
+        }
+        if i < n && b[i] == b'.' {
+            i += 1;
+            while i < n && b[i].wrapping_sub(b'0') < 10 {
+                mant = mant * 10 + (b[i] - b'0') as u128;
+                nf += 1;
+                i += 1;
+            }
+            if ni == 0 && nf == 0 {
+                return None;
+            }
+        } else if ni == 0 {
+            return None;
+        }
+        let mut exp: i64 = 0;
+        if i < n && (b[i] == b'e' || b[i] == b'E') {
+            i += 1;
+            let mut eneg = false;
+            if i < n && (b[i] == b'+' || b[i] == b'-') {
+                eneg = b[i] == b'-';
+                i += 1;
+            }
+            let mut ne = 0usize;
+            while i < n && b[i].wrapping_sub(b'0') < 10 {
+                if exp < 1_000_000 {
+                    exp = exp * 10 + (b[i] - b'0') as i64;
+                }
+                ne += 1;
+                i += 1;
+            }
+            if ne == 0 {
+                return None;
+            }
+            if eneg {
+                exp = -exp;
+            }
+        }
+        if i != n {
+            return None;
+        }
+        let scale = nf as i64 - exp;
+        if scale > 18 {
+            return None;
+        }
+        if scale >= 0 {
+            let c = mant as i128;
+            return Some((if neg { -c } else { c }, scale as u8));
+        }
+        if mant == 0 {
+            return Some((0, 0));
+        }
+        let k = -scale;
+        if k > 38 {
+            return None;
+        }
+        let c = match mant.checked_mul(P10[k as usize]) {
+            Some(c) => c,
+            None => return None,
+        };
+        if c > MAXC {
+            return None;
+        }
+        let c = c as i128;
+        Some((if neg { -c } else { c }, 0))
+    }
+
+    /// literal level: Some((coefficient, exponent)) with value = coefficient * 10^exponent, as `fpdec_core::str_to_dec` has to return it
+    /// (no 128-bit multiplication: the folding of the exponent in `Decimal::from_str` is verified separately by mir2smt)
+    pub fn oracle_pair(b: &[u8]) -> Option<(i128, i64)> {
+        let n = b.len();
+        let mut i = 0usize;
+        let mut neg = false;
+        if i < n && (b[i] == b'+' || b[i] == b'-') {
+            neg = b[i] == b'-';
+            i += 1;
+        }
+        let mut mant: u64 = 0; // at most 16 digits
+        let mut ni = 0usize;
+        let mut nf = 0usize;
+        while i < n && b[i].wrapping_sub(b'0') < 10 {
+            mant = mant * 10 + (b[i] - b'0') as u64;
+            ni += 1;
+            i += 1;
+        }
+        if i < n && b[i] == b'.' {
+            i += 1;
+            while i < n && b[i].wrapping_sub(b'0') < 10 {
+                mant = mant * 10 + (b[i] - b'0') as u64;
+                nf += 1;
+                i += 1;
+            }
+            if ni == 0 && nf == 0 {
+                return None;
+            }
+        } else if ni == 0 {
+            return None;
+        }
+        let mut exp: i64 = 0;
+        if i < n && (b[i] == b'e' || b[i] == b'E') {
+            i += 1;
+            let mut eneg = false;
+            if i < n && (b[i] == b'+' || b[i] == b'-') {
+                eneg = b[i] == b'-';
+                i += 1;
+            }
+            let mut ne = 0usize;
+            while i < n && b[i].wrapping_sub(b'0') < 10 {
+                if exp < 1_000_000 {
+                    exp = exp * 10 + (b[i] - b'0') as i64;
+                }
+                ne += 1;
+                i += 1;
+            }
+            if ne == 0 {
+                return None;
+            }
+            if eneg {
+                exp = -exp;
+            }
+        }
+        if i != n {
+            return None;
+        }
+        let e = exp - nf as i64;
+        if -e > 18 {
+            return None;
+        }
+        let c = mant as i128;
+        if c == 0 {
+            return Some((0, if e > 0 { 0 } else { e }));
+        }
+        Some((if neg { -c } else { c }, e))
+    }
+
+    fn check(b: &[u8]) {
+        if let Ok(s) = core::str::from_utf8(b) {
+            let want = oracle_pair(b);
+            match fpdec_core::str_to_dec(s) {
+                Ok((c, e)) => {
+                    assert!(want.is_some(), "accepted a string outside the grammar / limits");
+                    let (wc, we) = want.unwrap();
+                    assert!(c == wc, "wrong coefficient");
+                    // exponents beyond +-10^6 are only capped (they are rejected by every caller: > 38)
+                    assert!(if we > 1_000_000 { e > 38 } else { e as i64 == we }, "wrong exponent");
+                }
+                Err(e) => {
+                    assert!(want.is_none(), "rejected a valid literal");
+                    assert!((e == ParseDecimalError::Empty) == b.is_empty(), "Empty iff empty string");
+                }
+            }
+            kani::cover!(want.is_some());
+        }
+    }
+
+    macro_rules! all_strings {
+        ($name:ident, $n:expr, $unw:expr) => {
+            /// every byte string of exactly $n bytes that is valid UTF-8
+            #[kani::proof]
+            #[kani::unwind($unw)]
+            fn $name() {
+                let b: [u8; $n] = kani::any();
+                check(&b);
+            }
+        };
+    }
+    all_strings!(all_strings_len0, 0, 3);
+    all_strings!(all_strings_len1, 1, 4);
+    all_strings!(all_strings_len2, 2, 5);
+    all_strings!(all_strings_len3, 3, 6);
+    all_strings!(all_strings_len4, 4, 7);
+    all_strings!(all_strings_len5, 5, 8);
+    all_strings!(all_strings_len6, 6, 9);
+    all_strings!(all_strings_len7, 7, 10);
+    all_strings!(all_strings_len8, 8, 11);
+
+    macro_rules! ascii_strings {
+        ($name:ident, $n:expr, $unw:expr) => {
+            /// every ASCII string of exactly $n bytes over the alphabet that matters to the parser plus one arbitrary other byte class
+            #[kani::proof]
+            #[kani::unwind($unw)]
+            fn $name() {
+                let b: [u8; $n] = kani::any();
+                let mut i = 0;
+                while i < $n {
+                    kani::assume(b[i] < 128);
+                    i += 1;
+                }
+                check(&b);
+            }
+        };
+    }
+    ascii_strings!(ascii_strings_len9, 9, 12);
+    ascii_strings!(ascii_strings_len10, 10, 13);
+    ascii_strings!(ascii_strings_len11, 11, 14);
+    ascii_strings!(ascii_strings_len12, 12, 15);
+
+    macro_rules! exponent_strings {
+        ($name:ident, $n:expr, $unw:expr) => {
+            /// <1..3 mantissa digits> (e|E) [sign] <exponent digits>: exponent accumulation, clamp, limits; total length $n
+            #[kani::proof]
+            #[kani::unwind($unw)]
+            fn $name() {
+                let b: [u8; $n] = kani::any();
+                let m: usize = kani::any();
+                kani::assume(m >= 1 && m <= 3);
+                let mut i = 0;
+                while i < $n {
+                    if i < m {
+                        kani::assume(b[i].wrapping_sub(b'0') < 10);
+                    } else if i == m {
+                        kani::assume(b[i] == b'e' || b[i] == b'E');
+                    } else if i == m + 1 {
+                        kani::assume(b[i] == b'+' || b[i] == b'-' || b[i].wrapping_sub(b'0') < 10);
+                    } else {
+                        kani::assume(b[i].wrapping_sub(b'0') < 10);
+                    }
+                    i += 1;
+                }
+                check(&b);
+            }
+        };
+    }
+    exponent_strings!(exponent_strings_len13, 13, 16);
+    exponent_strings!(exponent_strings_len14, 14, 17);
+    exponent_strings!(exponent_strings_len16, 16, 19);
+}
+
+#[cfg(all(kani, fpdec_verif))]
+mod swar {
+    use fpdec_core::verif_hooks::{chunk_contains_8_digits, chunk_to_u64};
+
+    /// chunk_contains_8_digits(k) <=> all 8 bytes of k are ASCII digits, for every u64
+    #[kani::proof]
+    #[kani::unwind(10)]
+    fn chunk_contains_8_digits_all() {
+        let k: u64 = kani::any();
+        let b = k.to_le_bytes();
+        let mut all = true;
+        let mut i = 0;
+        while i < 8 {
+            if b[i].wrapping_sub(b'0') >= 10 {
+                all = false;
+            }
+            i += 1;
+        }
+        assert!(chunk_contains_8_digits(k) == all);
+    }
+
+    /// chunk_to_u64(k) = decimal value of the 8 digits (first byte most significant), for every chunk of 8 digits
+    #[kani::proof]
+    #[kani::unwind(10)]
+    fn chunk_to_u64_all() {
+        let b: [u8; 8] = kani::any();
+        let mut v: u64 = 0;
+        let mut i = 0;
+        while i < 8 {
+            kani::assume(b[i].wrapping_sub(b'0') < 10);
+            v = v * 10 + (b[i] - b'0') as u64;
+            i += 1;
+        }
+        assert!(chunk_to_u64(u64::from_le_bytes(b)) == v);
+    }
+}
